@@ -23,14 +23,16 @@ static const int MAXSLOTS = 256, GUARD = 16;
 // All three areas the library writes to end exactly at a PROT_NONE page (engine/guard.h): an overrun is a caught
 // SIGSEGV instead of silent corruption of the harness. In front of each area lies a canary zone that is verified.
 static guard::Arena g_parena, g_sarena, g_oarena;
+static const size_t FRONT = 512;          // canary bytes verified in front of each area
 static char *g_raw;                       // PRE bytes + print buffer of PBUF bytes
 static char *g_scratch;
-static rtosc_arg_val_t *g_out;            // MAXSLOTS + GUARD sentinel-filled slots
+static rtosc_arg_val_t *g_out;            // announced count + GUARD sentinel-filled slots, placed per case
+static bool all_bytes(const void *p, size_t n, unsigned char v) { const unsigned char *b = (const unsigned char *)p; return n == 0 || (b[0] == v && memcmp(b, b + 1, n - 1) == 0); }
 static void init_buffers()
 {
-    g_parena.init(4); g_raw = (char *)g_parena.at_end(PRE + PBUF, 4096);
-    g_sarena.init(3); g_scratch = (char *)g_sarena.at_end(SCR, 4096);
-    g_oarena.init(3); g_out = (rtosc_arg_val_t *)g_oarena.at_end((MAXSLOTS + GUARD) * sizeof(rtosc_arg_val_t), 4096);
+    g_parena.init(4); g_raw = (char *)g_parena.hi() - (PRE + PBUF); memset(g_raw - FRONT, guard::CANARY, FRONT);
+    g_sarena.init(3); g_scratch = (char *)g_sarena.hi() - SCR; memset(g_scratch - FRONT, guard::CANARY, FRONT);
+    g_oarena.init(3);
 }
 static const char *ADDR[3] = {"", "/a", "/a/b0"};
 
@@ -69,9 +71,9 @@ static Run run_case(const List &L, const Opt &o, int mode, bool detail)
         if(sig == SIGSEGV && pf::g_fault_addr >= (void *)(g_raw + PRE + PBUF) && pf::g_fault_addr < (void *)(g_raw + PRE + PBUF + 4096)) { r.c = PRINT_GUARD; r.detail = "printer accessed memory behind the 8 KiB buffer"; }
         return r;
     }
-    for(size_t k = 0; k + 1 < PRE; ++k) if(g_raw[k] != 0x7f) { r.c = PRINT_GUARD; r.detail = "byte buffer[-" + std::to_string(PRE - k) + "] was written"; return r; }
+    if(!all_bytes(g_raw, PRE - 1, 0x7f)) { r.c = PRINT_GUARD; r.detail = "bytes in front of buffer[-1] were written"; return r; }
     if(!isspace((unsigned char)g_raw[PRE - 1])) { r.c = PRINT_GUARD; r.detail = "buffer[-1] became a non-blank"; return r; }
-    if(!g_parena.canary_ok()) { r.c = PRINT_GUARD; r.detail = "bytes more than 16 in front of the buffer were written"; g_parena.at_end(PRE + PBUF, 4096); return r; }
+    if(!all_bytes(g_raw - FRONT, FRONT, guard::CANARY)) { r.c = PRINT_GUARD; r.detail = "bytes more than 16 in front of the buffer were written"; memset(g_raw - FRONT, guard::CANARY, FRONT); return r; }
     const char *nul = (const char *)memchr(buf, 0, PBUF);
     if(!nul) { r.c = PRINT_LEN; r.detail = "returned " + std::to_string(ret) + " but wrote no terminating 0 into the buffer (buffer was pre-filled with 0x7f)"; return r; }
     const size_t len = nul - buf;
@@ -87,7 +89,10 @@ static Run run_case(const List &L, const Opt &o, int mode, bool detail)
         r.c = COUNT; r.detail = "syntax checker returns " + std::to_string(count) + " for the printed text of " + std::to_string(n) + " slots"; return r;
     }
 
-    memset(g_out, pf::SENT, (MAXSLOTS + GUARD) * sizeof(rtosc_arg_val_t));
+    // output array: [FRONT canary bytes][count slots][GUARD slots] PROT_NONE page
+    g_out = (rtosc_arg_val_t *)g_oarena.hi() - (count + GUARD);
+    memset(g_out, pf::SENT, (count + GUARD) * sizeof(rtosc_arg_val_t));
+    memset((char *)g_out - FRONT, guard::CANARY, FRONT);
     memset(g_scratch, 0x7f, SCR);
     char addr[32]; memset(addr, 0x7f, sizeof addr);
     size_t rd = 0;
@@ -99,13 +104,13 @@ static Run run_case(const List &L, const Opt &o, int mode, bool detail)
     if(sig) {
         r.c = CRASH_SCAN; r.detail = std::string(pf::signame(sig)) + " inside the scanner (count=" + std::to_string(count) + ")";
         if(sig == SIGSEGV && pf::g_fault_addr >= (void *)(g_scratch + SCR) && pf::g_fault_addr < (void *)(g_scratch + SCR + 4096)) { r.c = SCRATCH_GUARD; r.detail = "scanner accessed memory behind the scratch buffer"; }
-        if(sig == SIGSEGV && pf::g_fault_addr >= (void *)(g_out + MAXSLOTS + GUARD) && pf::g_fault_addr < (void *)((char *)(g_out + MAXSLOTS + GUARD) + 4096)) { r.c = SLOTS; r.detail = "scanner ran more than " + std::to_string(MAXSLOTS + GUARD - count) + " slots past the announced count"; }
+        if(sig == SIGSEGV && pf::g_fault_addr >= (void *)g_oarena.hi() && pf::g_fault_addr < (void *)(g_oarena.hi() + 4096)) { r.c = SLOTS; r.detail = "checker announced " + std::to_string(count) + " slots, scanner ran more than " + std::to_string(GUARD) + " slots past them"; }
         return r;
     }
-    if(!g_oarena.canary_ok()) { g_oarena.at_end((MAXSLOTS + GUARD) * sizeof(rtosc_arg_val_t), 4096); r.c = SLOTS; r.detail = "scanner wrote in front of the output array"; return r; }
+    if(!all_bytes((char *)g_out - FRONT, FRONT, guard::CANARY)) { r.c = SLOTS; r.detail = "scanner wrote in front of the output array"; return r; }
     r.rng = has_range(g_out, count);
-    int touched_end = 0;
-    for(int k = 0; k < MAXSLOTS + GUARD; ++k) if(!pf::slot_untouched(g_out[k])) touched_end = k + 1;
+    int touched_end = count;
+    if(!all_bytes(g_out + count, GUARD * sizeof(rtosc_arg_val_t), pf::SENT)) for(int k = count; k < count + GUARD; ++k) if(!pf::slot_untouched(g_out[k])) touched_end = k + 1;
     if(touched_end > count) { r.c = SLOTS; r.detail = "checker announced " + std::to_string(count) + " slots, scanner wrote up to slot " + std::to_string(touched_end); return r; }
     for(int k = 0; k < count; ++k) if(pf::slot_untouched(g_out[k])) { r.c = SLOTS; r.detail = "checker announced " + std::to_string(count) + " slots, slot " + std::to_string(k) + " was not written"; return r; }
     pf::Scratch sc; sc.lo = g_scratch; sc.hi = g_scratch + SCR;
@@ -113,7 +118,7 @@ static Run run_case(const List &L, const Opt &o, int mode, bool detail)
     if(!pf::expand(g_out, count, X, sc, err)) { r.c = STRUCT; r.detail = "scanned array is malformed: " + err; return r; }
     if(rd > len || !all_ws(buf + rd)) { r.c = CONSUMED; r.detail = "scanner consumed " + std::to_string(rd) + " of " + std::to_string(len) + " bytes"; return r; }
     if(mode && strcmp(addr, ADDR[mode])) { r.c = ADDRESS; r.detail = "scanned address '" + vp::show(addr, strnlen(addr, sizeof addr)) + "'"; return r; }
-    if(!g_sarena.canary_ok()) { g_sarena.at_end(SCR, 4096); r.c = SCRATCH_GUARD; r.detail = "bytes in front of the scratch buffer were written"; return r; }
+    if(!all_bytes(g_scratch - FRONT, FRONT, guard::CANARY)) { memset(g_scratch - FRONT, guard::CANARY, FRONT); r.c = SCRATCH_GUARD; r.detail = "bytes in front of the scratch buffer were written"; return r; }
     if(!pf::same(L, X)) {
         r.c = VALUE;
         if(detail) {
@@ -141,30 +146,33 @@ static bool is_ident(const std::string &s)
 static bool is_keyword(const std::string &s) { return s == "true" || s == "false" || s == "nil" || s == "inf" || s == "now" || s == "immediately" || s == "MIDI" || s == "BLOB"; }
 static bool needs_escape(char c, bool chr) { return strchr("\a\b\t\n\v\f\r\\", c) ? c != 0 : (chr ? c == '\'' : c == '"'); }
 
-static std::string collapse(const List &l);
-static std::string tag(const PV &p)
+// fine = tags of a single value (type, sign, spelling class); coarse = lexical class used inside longer sub-lists
+static std::string collapse(const List &l, bool fine);
+static std::string tag(const PV &p, bool fine)
 {
+    const char *neg = "";
     switch(p.k) {
-    case 'i': return (int32_t)(uint32_t)p.u < 0 ? "-i" : "i";
-    case 'h': return (int64_t)p.u < 0 ? "-h" : "h";
-    case 'f': return ((uint32_t)p.u >> 31) ? "-f" : "f";
-    case 'd': return (p.u >> 63) ? "-d" : "d";
-    case 'c': return needs_escape((char)p.u, true) ? "c-esc" : "c";
-    case 's': { if(p.s.empty()) return "s-empty"; for(char c : p.s) if(needs_escape(c, false)) return "s-esc"; return "s"; }
+    case 'i': neg = (int32_t)(uint32_t)p.u < 0 ? "-" : ""; return std::string(neg) + (fine ? "i" : "num");
+    case 'h': neg = (int64_t)p.u < 0 ? "-" : ""; return std::string(neg) + (fine ? "h" : "num");
+    case 'f': return std::string(((uint32_t)p.u >> 31) ? "-" : "") + "f";
+    case 'd': return std::string((p.u >> 63) ? "-" : "") + "d";
+    case 'c': return (fine && needs_escape((char)p.u, true)) ? "c-esc" : "c";
+    case 's': { if(!fine) return "s"; if(p.s.empty()) return "s-empty"; for(char c : p.s) if(needs_escape(c, false)) return "s-esc"; return "s"; }
     case 'S': return is_keyword(p.s) ? "S-keyword" : is_ident(p.s) ? "S-id" : "S-quoted";
-    case 'b': return p.s.empty() ? "b0" : "b";
+    case 'b': return (fine && p.s.empty()) ? "b0" : "b";
     case 't': return p.u == 1 ? "t-imm" : (uint32_t)p.u ? "t-frac" : (p.u >> 32) % 60 ? "t-hms" : (p.u >> 32) % 86400 ? "t-hm" : "t-date";
-    case 'a': return "[" + collapse(p.el) + "]";
+    case 'a': return "[" + collapse(p.el, fine && p.el.size() <= 1) + "]";
+    case 'T': case 'F': case 'N': case 'I': return fine ? std::string(1, p.k) : "kw";
     default: return std::string(1, p.k);
     }
 }
-static std::string collapse(const List &l)
+static std::string collapse(const List &l, bool fine)
 {
     std::string o;
     for(size_t i = 0; i < l.size();) {
-        std::string t = tag(l[i]);
+        std::string t = tag(l[i], fine);
         size_t j = i + 1;
-        while(j < l.size() && tag(l[j]) == t) ++j;
+        while(j < l.size() && tag(l[j], fine) == t) ++j;
         if(!o.empty()) o += ',';
         o += t;
         if(j - i > 1) {
@@ -172,38 +180,68 @@ static std::string collapse(const List &l)
             bool ari = false;
             if(!cst && j - i > 2 && strchr("ihc", l[i].k)) {
                 ari = true; uint64_t d = l[i + 1].u - l[i].u;
-                for(size_t k = i + 1; k < j; ++k) if(l[k].u - l[k - 1].u != d) ari = false;
+                for(size_t k = i + 1; k < j; ++k) if(l[k].k != l[i].k || l[k].u - l[k - 1].u != d) ari = false;
             }
-            o += "*" + std::to_string(j - i) + (cst ? "=" : ari ? "+" : "~");
+            o += "*" + std::to_string(j - i);
+            if(j - i >= 5) o += (cst ? "=" : ari ? "+" : "~");   // long enough to be range-compressed: constant / arithmetic / neither
         }
         i = j;
     }
     return o;
 }
 
-// shrink the list to a shortest contiguous sub-list that still fails the same clause; its tags are the shape class
-static std::string shape_of(const List &L, const Opt &o, int mode, Clause c, List &minimal, Run &minrun)
+// A failing case is reduced to a canonical smallest reproduction before it is named: shortest contiguous sub-list
+// that still fails (any clause), then bare argument list instead of message, compression off, one long line and
+// precision 2 wherever the failure survives that. The signature is the one of the reduced case, so that one defect
+// is not reported under the name of every list that happens to contain its trigger.
+struct Reduced { List L; Opt o; int mode; Run run; std::string sig; };
+static bool failing(const List &L, const Opt &o, int mode) { return run_case(L, o, mode, false).c != OK; }
+static void shrink_arrays(List &L, const Opt &o, int mode)
 {
-    size_t a = 0, b = L.size();
-    auto fails = [&](size_t x, size_t y, Run &out) { List sub(L.begin() + x, L.begin() + y); out = run_case(sub, o, mode, true); return out.c == c; };
-    Run tmp;
-    while(b - a > 1 && fails(a, b - 1, tmp)) --b;
-    while(b - a > 1 && fails(a + 1, b, tmp)) ++a;
-    minimal.assign(L.begin() + a, L.begin() + b);
-    minrun = run_case(minimal, o, mode, true);
-    // a single array: shrink its content the same way
-    if(minimal.size() == 1 && minimal[0].k == 'a' && minrun.c == c) {
-        List el = minimal[0].el; size_t x = 0, y = el.size();
-        auto afails = [&](size_t p, size_t q) { List sub{pf::Arr(List(el.begin() + p, el.begin() + q))}; return run_case(sub, o, mode, false).c == c; };
-        while(y - x > 1 && afails(x, y - 1)) --y;
-        while(y - x > 1 && afails(x + 1, y)) ++x;
-        minimal = List{pf::Arr(List(el.begin() + x, el.begin() + y))};
-        minrun = run_case(minimal, o, mode, true);
+    for(size_t i = 0; i < L.size(); ++i) if(L[i].k == 'a') {
+        List el = L[i].el; size_t x = 0, y = el.size();
+        auto with = [&](size_t p, size_t q) { List M = L; M[i] = pf::Arr(List(el.begin() + p, el.begin() + q)); return M; };
+        while(y - x > 0 && failing(with(x, y - 1), o, mode)) --y;
+        while(y - x > 1 && failing(with(x + 1, y), o, mode)) ++x;
+        L = with(x, y);
     }
-    std::string s = collapse(minimal);
-    if(s.empty()) s = "empty-list";
-    if(minrun.nl) s += "+linebreak";
-    return s;
+}
+static void trim(List &L, const Opt &o, int mode)
+{
+    if(L.size() > 1) {
+        // a single value, then an adjacent pair, that fails on its own is the preferred reduction
+        for(size_t i = 0; i < L.size(); ++i) if(failing(List{L[i]}, o, mode)) { L = List{L[i]}; break; }
+        if(L.size() > 2) for(size_t i = 0; i + 1 < L.size(); ++i) if(failing(List{L[i], L[i + 1]}, o, mode)) { L = List{L[i], L[i + 1]}; break; }
+    }
+    if(L.size() > 2) {
+        size_t a = 0, b = L.size();
+        auto sub = [&](size_t x, size_t y) { return List(L.begin() + x, L.begin() + y); };
+        while(b - a > 1 && failing(sub(a, b - 1), o, mode)) --b;
+        while(b - a > 1 && failing(sub(a + 1, b), o, mode)) ++a;
+        L = sub(a, b);
+    }
+    shrink_arrays(L, o, mode);
+}
+static Reduced reduce(const List &L0, const Opt &o0, int mode0)
+{
+    Reduced r; r.L = L0; r.o = o0; r.mode = mode0;
+    trim(r.L, r.o, r.mode);
+    // canonical options, as far as the same clause keeps failing
+    const Clause c = run_case(r.L, r.o, r.mode, false).c;
+    auto still = [&](const Opt &t, int mode) { return run_case(r.L, t, mode, false).c == c; };
+    if(r.mode && still(r.o, 0)) r.mode = 0;
+    { Opt t = r.o; t.comp = 0; if(r.o.comp && still(t, r.mode)) r.o = t; }
+    { Opt t = r.o; t.ll = 120; if(r.o.ll != 120 && still(t, r.mode)) r.o = t; }
+    { Opt t = r.o; t.prec = 2; if(r.o.prec != 2 && still(t, r.mode)) r.o = t; }
+    if(r.L.size() > 1) trim(r.L, r.o, r.mode);
+    r.run = run_case(r.L, r.o, r.mode, true);
+    std::string shape = collapse(r.L, r.L.size() <= 1);
+    if(shape.empty()) shape = "empty-list";
+    if(r.o.comp) shape += "+compress";
+    if(r.o.ll != 120) shape += "+linebreak";
+    if(r.o.prec != 2) shape += "+precision" + std::to_string(r.o.prec);
+    r.sig = std::string(CLAUSE[r.run.c]) + "|" + (r.mode ? "message" : "arg_vals") + "|" + shape;
+    return r;
 }
 
 // ------------------------------------------------------------------------------------------------ driver of one list
@@ -211,20 +249,24 @@ static uint64_t g_top = 0;
 static bool g_stop = false;
 static std::string g_fam_done;   // for cap(): last family completed
 
+static std::string optstr(const Opt &o, int mode)
+{
+    return "linelength=" + std::to_string(o.ll) + " precision=" + std::to_string(o.prec) + " compress=" + std::to_string(o.comp) + (mode ? std::string(" address=") + ADDR[mode] : std::string());
+}
 static void report(const std::string &cid, const List &L, const Opt &o, int mode, const Run &r)
 {
-    List minimal; Run mr;
-    std::string shape = shape_of(L, o, mode, r.c, minimal, mr);
-    std::string sig = std::string(CLAUSE[r.c]) + "|" + (mode ? "message" : "arg_vals") + "|" + shape;
+    Reduced m = reduce(L, o, mode);
+    if(m.run.c == OK) {   // must not happen: every step of reduce() keeps a failing case
+        vp::violation(std::string("unstable|") + CLAUSE[r.c], cid, "case fails but its reduction does not: list=" + pf::show(L) + " " + optstr(o, mode));
+        return;
+    }
     auto &vi = vp::ctx().viol;
-    auto it = vi.find(sig);
+    auto it = vi.find(m.sig);
     if(it != vi.end() && it->second.cases.size() >= 3) { it->second.count++; return; }
     Run full = run_case(L, o, mode, true);
-    std::string d = full.detail + "; text=<" + vp::show(full.text) + ">; list=" + pf::show(L) +
-                    "; options: linelength=" + std::to_string(o.ll) + " precision=" + std::to_string(o.prec) + " compress=" + std::to_string(o.comp) +
-                    (mode ? std::string(" address=") + ADDR[mode] : std::string()) +
-                    "; shortest failing sub-list=" + pf::show(minimal) + " text=<" + vp::show(mr.text) + "> (" + mr.detail + ")";
-    vp::violation(sig, cid, d);
+    std::string d = std::string(CLAUSE[full.c]) + ": " + full.detail + "; text=<" + vp::show(full.text) + ">; list=" + pf::show(L) + "; options: " + optstr(o, mode) +
+                    "; REDUCED TO list=" + pf::show(m.L) + " options: " + optstr(m.o, m.mode) + " text=<" + vp::show(m.run.text) + "> => " + CLAUSE[m.run.c] + ": " + m.run.detail;
+    vp::violation(m.sig, cid, d);
 }
 
 enum OptSet { ALL, FEW };   // FEW: linelength {10,80} x precision {0,2,9} x compress {0,1}
@@ -254,6 +296,7 @@ static void do_list(const char *fam, uint64_t idx, const List &L, OptSet os = AL
         vp::eval();
         Run r = run_case(L, g_opts[oi], mode, false);
         vp::trace();
+        if(vp::replaying()) { Run v = run_case(L, g_opts[oi], mode, true); fprintf(stderr, "replay %s: list=%s options: %s\n  text=<%s>\n  verdict: %s %s\n", cid.c_str(), pf::show(L).c_str(), optstr(g_opts[oi], mode).c_str(), vp::show(v.text).c_str(), CLAUSE[v.c], v.detail.c_str()); }
         static std::string lab; lab = fam; lab += g_opts[oi].comp ? "|compress" : "|plain"; lab += r.rng ? "|range-scanned" : "|no-range"; lab += r.nl ? "|linebreak" : "|one-line";
         lab += mode ? "|msg|" : "|args|"; lab += CLAUSE[r.c];
         vp::outcome(lab);
@@ -428,7 +471,7 @@ int main(int argc, char **argv)
                                      List M = run; M.push_back(p); do_list("run", idx++, M, FEW); }
             // two runs in a row (the second of another kind of delta)
             for(auto &rd2 : defs) if(rd2.rs.k == rd.rs.k && (T || len == 5)) {
-                List L = run; for(int i = 0; i < 5; ++i) L.push_back(run_elem(rd2.rs, rd2.base + 40, i));
+                List L = run; for(int i = 0; i < 5; ++i) L.push_back(run_elem(rd2.rs, rd2.rs.k == 'c' ? (rd2.rs.delta < 0 ? 'Z' : 'A') : rd2.base + 40, i));
                 do_list("run", idx++, L, FEW);
             }
         }
